@@ -109,6 +109,20 @@ PROPS = {
 
 LEVEL_TEXT = {}
 
+PROPS['C20'] = {
+    'modules': ['contracts.c16_files', 'contracts.c14_expr'],
+    'static': ['vf.effects:check_determinism'],
+    'standins': ['determinism'],
+    'trusted': PYVC_TRUST + ['CPython: dict iteration is insertion-ordered; hash randomisation affects only set iteration order',
+                             'the effect analysis is intraprocedural with program-wide set-typed attributes (vf/effects.py)'],
+    'assumptions': ['cross-input interference (shared FileProcessor cache, in-place model passes): contracts on the include-directory '
+                    'stack and on Calc.eval, otherwise bounded stand-in'],
+    'level': 'other',
+    'explanation': 'a proved sufficient condition (effect contract: no ambient nondeterminism, no set order reaches an output) plus contracts '
+                   'on the shared state; a two-run hyperproperty is not a postcondition',
+    'technique': 'contract-based: effect/frame contract checked on the AST of every tool-chain function + PyVC contracts on shared state; bounded stand-in for the rest',
+}
+
 NOT_APPLICABLE = {
     'C09': 'needs a byte-addressed memory model of g++-laid-out packed structs walked by generated pointer-cast code; '
            'no C/C++ deductive verifier is installed and the contract engines here (Python AST; clang AST with scalars only) '
